@@ -195,15 +195,30 @@ Definition run_partials (fixed : bool) (kc : Z) (pat : entries) (nrows ncols : n
   VL [vreport (report_of st); vmatQ jfd;
       vtv (get_tol_violation (List.concat an) (List.concat jfd) atol rtol)].
 
-(* check_partials(step=[s1, s2, ...]): one fresh checking jacobian per step; the uncovered report
-   is the one of the last step *)
+(* check_partials(step=[s1, s2, ...]): one fresh checking jacobian per step; the report keeps what
+   every step found (entries already listed are not repeated) *)
+Fixpoint add_new (acc l : list (nat * nat)) : list (nat * nat) :=
+  match l with
+  | [] => acc
+  | p :: t => add_new (if existsb (eqb2 p) acc then acc else acc ++ [p]) t
+  end.
+
+Definition merge_report (acc r : report) : report :=
+  match acc, r with
+  | RKeyError, _ => RKeyError
+  | _, RKeyError => RKeyError
+  | a, RAbsent => a
+  | RAbsent, RList l => RList (add_new [] l)
+  | RList a, RList l => RList (add_new a l)
+  end.
+
 Definition run_partials_steps (fixed : bool) (kc : Z) (pat : entries) (nrows ncols : nat) (thr : Q)
            (fds : list (list (list Q))) (an : list (list Q)) (atol rtol : Q) : val :=
   let k := kind_of_code kc in
   let sts := map (fun fd => run_cols fixed k pat nrows thr (matrix_cols (matQ fd) ncols)
                                      (init_state pat)) fds in
   let jfds := map (fun st => dense_of pat (vals st) nrows ncols) sts in
-  VL [vreport (report_of (last sts (init_state pat)));
+  VL [vreport (fold_left merge_report (map report_of sts) RAbsent);
       VL (map vmatQ jfds);
       VL (map (fun jfd => vtv (get_tol_violation (List.concat an) (List.concat jfd) atol rtol)) jfds)].
 
